@@ -242,9 +242,16 @@ dLUMemInit(fact_t fact, void *work, int_t lwork, int m, int n, int_t annz,
 	} else {
 	    xsup   = (int *)duser_malloc((n+1) * iword, HEAD, Glu);
 	    supno  = (int *)duser_malloc((n+1) * iword, HEAD, Glu);
-	    xlsub  = duser_malloc((n+1) * iword, HEAD, Glu);
-	    xlusup = duser_malloc((n+1) * iword, HEAD, Glu);
-	    xusub  = duser_malloc((n+1) * iword, HEAD, Glu);
+	    if ( sizeof(int_t) > sizeof(int) ) { /* int_t arrays need int_t alignment */
+		int pad = (int) ( (- (intptr_t) ((char*) Glu->stack.array
+						 + Glu->stack.top1))
+				 & (intptr_t) (sizeof(int_t) - 1) );
+		Glu->stack.top1 += pad;
+		Glu->stack.used += pad;
+	    }
+	    xlsub  = duser_malloc((n+1) * sizeof(int_t), HEAD, Glu);
+	    xlusup = duser_malloc((n+1) * sizeof(int_t), HEAD, Glu);
+	    xusub  = duser_malloc((n+1) * sizeof(int_t), HEAD, Glu);
 	    if ( !xsup || !supno || !xlsub || !xlusup || !xusub ) {
 		/* work[] cannot even hold the pointer arrays */
 		SUPERLU_FREE(Glu->expanders);
